@@ -417,11 +417,20 @@ pub fn run_case(line: &str) -> (String, Vec<String>) {
         fails.push(format!("C05:parsing {} bytes allocated {} bytes at peak (largest request {})", delivered.len(), peak, largest));
     }
     let base_text = base.text(false);
+    // results under the other schedules; those that differ from the one-shot run are kept so that
+    // the value-level oracles below also see what the cold (byte-wise) scanner paths accepted
+    let mut variants: Vec<(String, RunObs)> = vec![];
     for (name, ev, chunk) in scheds.iter().skip(1) {
-        let o = run_parser(&c.fmt, &c.ty, c.cfg, mk(ev.clone()), *chunk).text(false);
+        let ro = run_parser(&c.fmt, &c.ty, c.cfg, mk(ev.clone()), *chunk);
+        let o = ro.text(false);
         if o != base_text {
-            fails.push(format!("C01:result depends on the read schedule: one-shot={} {}={}", base_text, name, o));
-            break;
+            if variants.is_empty() {
+                fails.push(format!("C01:result depends on the read schedule: one-shot={} {}={}", base_text, name, o));
+            }
+            if ro.fin == "E:panic" {
+                fails.push(format!("C05:parser panicked under schedule {}", name));
+            }
+            variants.push((name.clone(), ro));
         }
     }
     if base.fin == "E:panic" {
@@ -472,12 +481,14 @@ pub fn run_case(line: &str) -> (String, Vec<String>) {
         }
     }
     // ---- C06: independent reading of accepted inputs
-    if !fault && base.fin == "END" && c.fmt != "log" {
+    let mut accepted: Vec<&RunObs> = vec![&base];
+    accepted.extend(variants.iter().map(|(_, r)| r));
+    for run in accepted.iter().filter(|r| !fault && r.fin == "END" && c.fmt != "log") {
         match reference_read(&c.fmt, &delivered) {
             None => {}
             Some(rd) => {
                 let want: Vec<String> = rd.clauses.iter().map(|(t, l, _)| format!("C:{}:{}", t, if l.is_empty() { "-".into() } else { l.join(",") })).collect();
-                let got: Vec<String> = base.items.iter().filter(|(s, _)| s.starts_with("C:")).map(|(s, _)| s.clone()).collect();
+                let got: Vec<String> = run.items.iter().filter(|(s, _)| s.starts_with("C:")).map(|(s, _)| s.clone()).collect();
                 if want != got {
                     fails.push(format!("C06:returned clauses {:?} differ from the text {:?}", got, want));
                 }
@@ -485,8 +496,8 @@ pub fn run_case(line: &str) -> (String, Vec<String>) {
                 let mut lit_limit = maxd.clone();
                 if let Some(h) = &rd.header {
                     let hs = format!("H:{}", h.join(":"));
-                    if base.items[0].0 != hs {
-                        fails.push(format!("C06:returned header {} differs from the text {}", base.items[0].0, hs));
+                    if run.items[0].0 != hs {
+                        fails.push(format!("C06:returned header {} differs from the text {}", run.items[0].0, hs));
                     }
                     if !c.cfg {
                         if h[0] != "0" { lit_limit = h[0].clone(); }
@@ -514,6 +525,8 @@ pub fn run_case(line: &str) -> (String, Vec<String>) {
                 }
             }
         }
+    }
+    if !fault && base.fin == "END" && c.fmt != "log" {
         // ---- C03 converse: parse(write(parse(t))) = parse(t)
         if let Some(bytes) = write_back(&c.fmt, &c.ty, &base) {
             let again = run_parser(&c.fmt, &c.ty, c.cfg, SchedSource::new(bytes.clone(), false, vec![]), 16384).text(false);
